@@ -13,10 +13,11 @@ MEMBER_KINDS = ['method', 'amethod', 'static', 'classm', 'prop', 'decomethod', '
                 'method_nested_def']
 # definitions inside module-level control flow that does execute on import, guards that merely mention
 # __name__, and decorators that come from other modules - explored by their own spec (smaller layout set)
-BLOCK_TOP_KINDS = ['main_else_def', 'ifnot_main_def', 'ifne_main_def', 'ifor_main_def', 'else_def', 'except_def',
+BLOCK_TOP_KINDS = ['twin_classes', 'main_else_def', 'ifnot_main_def', 'ifne_main_def', 'ifor_main_def', 'else_def', 'except_def',
                    'finally_def', 'for_def', 'with_def', 'while_def', 'cmdef', 'lrudef', 'if_class', 'subclass']
 BLOCK_MEMBER_KINDS = ['cmmethod', 'cachedprop', 'if_method', 'prop_deco']
-LAYOUTS = ['freeform1', 'none', 'freeform2', 'google1', 'google2', 'doctestblock', 'google_after_args', 'mixed']
+LAYOUTS = ['freeform1', 'none', 'freeform2', 'google1', 'google2', 'doctestblock', 'google_after_args', 'mixed',
+           'google_space', 'google_kinds', 'free_after_word', 'google_blank2']
 STYLES = ['auto', 'google', 'freeform']
 TOKEN_RE = re.compile(r'tok_\d+')
 
@@ -74,6 +75,26 @@ def doc_body(layout, tok):
         t = tok()
         return (['Summary line.', '', 'Args:', '    a (int): something', '', 'Returns:', '    int: zero', '',
                  'Example:'] + ['    ' + l for l in ex(t)]), [('google', [t])]
+    if layout == 'google_space':
+        # block headers written with a blank before the colon / with a double colon
+        t1, t2 = tok(), tok()
+        return (['Summary line.', '', 'Example :'] + ['    ' + l for l in ex(t1)] +
+                ['', 'Example::'] + ['    ' + l for l in ex(t2)]), [('google', [t1]), ('google', [t2])]
+    if layout == 'google_kinds':
+        # blocks of two different kinds in one docstring: numbered consecutively
+        t1, t2, t3 = tok(), tok(), tok()
+        return (['Summary line.', '', 'Example:'] + ['    ' + l for l in ex(t1)] +
+                ['', 'Doctest:'] + ['    ' + l for l in ex(t2)] +
+                ['', 'Example:'] + ['    ' + l for l in ex(t3)]), [('google', [t1]), ('google', [t2]), ('google', [t3])]
+    if layout == 'free_after_word':
+        # prose that merely ends in a word like "subscript" / "ignore" directly above the examples
+        t1, t2 = tok(), tok()
+        return (['Summary line.', '', 'The index is written as a subscript'] + ex(t1) +
+                ['', 'Errors of this kind we ignore'] + ex(t2)), [('free', [t1]), ('free', [t2])]
+    if layout == 'google_blank2':
+        # no summary: two blank lines, then the first tag
+        t = tok()
+        return (['', '', 'Example:'] + ['    ' + l for l in ex(t)]), [('google', [t])]
     if layout == 'mixed':
         t1, t2 = tok(), tok()
         return (['Summary line.', ''] + ex(t1) + ['', 'Example:'] + ['    ' + l for l in ex(t2)]), [('free', [t1]), ('google', [t2])]
@@ -235,6 +256,22 @@ class Builder(object):
             self.emit('')
             self.inventory.append((name, groups))
             self.func(8, 'ikm', 'freeform1', args='self', qual=name + '.ikm')
+        elif kind == 'twin_classes':
+            # two classes with a method of the same name and byte-identical docstrings
+            body, groups = doc_body(layout, self.tok)
+            for cname in ('TwA' + n, 'TwB' + n):
+                self.emit('class %s(object):' % cname)
+                self.emit('    z = 0')
+                self.emit('')
+                self.emit('    def close(self):')
+                if body is not None:
+                    self.emit('        """')
+                    for l in body:
+                        self.emit(('        ' + l) if l else '')
+                    self.emit('        """')
+                self.emit('        return 0')
+                self.emit('')
+                self.inventory.append((cname + '.close', groups))
         elif kind == 'subclass':
             # a documented base class and an undocumented subclass overriding a documented method without a
             # docstring: nothing may be invented for the subclass
